@@ -941,7 +941,11 @@ def fanout(case, calls, flat, stats):
         # every notification invokes the registered listeners of its kind once each, in registration order;
         # a re-entrant completion nests the groups of the notifications it causes inside the interrupted group
         stack = []  # open groups: dict(kind, name, line, first_event, next_index, interrupted)
+        pending_ident = None
         for ev in c["out"]:
+            if ev[0] == "IDENT":
+                pending_ident = ev   # judged at the next invocation: only inside one notification's group
+                continue
             if ev[0] in ("FIRE",):
                 for g in stack:
                     g["interrupted"] = True
@@ -951,7 +955,10 @@ def fanout(case, calls, flat, stats):
             kind, fn = ev[1], ev[2]
             exp = regs[kind]
             top = stack[-1] if stack else None
+            ident, pending_ident = pending_ident, None
             if top and top["kind"] == kind and top["key"] == (ev[3], ev[4]) and top["next"] < len(exp) and exp[top["next"]] == fn:
+                if ident is not None and not top["interrupted"]:
+                    out.append({"prop": "C20", "rule": "same_argument", "msg": "call %d: listener %d of the %s notification of %s (line %s) was handed another object than the listener before it (equal, but not the same argument)" % (ci, fn, kind, ev[3], ev[4])})
                 if ev[3:] != top["first"][3:]:
                     out.append({"prop": "C20", "rule": "same_argument_after_reentrant_completion" if top["interrupted"] else "same_argument", "msg": "call %d: listeners of one %s notification saw different arguments %r vs %r" % (ci, kind, top["first"][3:7], ev[3:7])})
                 top["next"] += 1
